@@ -77,7 +77,7 @@ def generate(rng, cfg: Dict) -> Dict:
         suffix.append(op)
     if c.chance(0.25):
         suffix = _stable_interleave(c, s_creates, s_rel)
-    shape = c.weighted([("mirror", 5), ("permuted", 4), ("random", 3), ("none", 0.5)])
+    shape = c.weighted([("mirror", 5), ("permuted", 4), ("random", 3), ("none", 0.5), ("many_failures", 0.6)])
     faults = c.chance(0.35)  # swarm knob: prefix operations that fail half-way
     prefix: List[list] = []
     if shape in ("mirror", "permuted"):
@@ -127,6 +127,16 @@ def generate(rng, cfg: Dict) -> Dict:
             for t in tail:
                 prefix.append([t] if t != "query" else ["query", c.pick(["Org", "Human", "Boss"])])
             base += len(order)
+    elif shape == "many_failures":
+        # a long past of operations that failed half-way and were caught by the program (anything that counts, nests
+        # or remembers "in progress" without unwinding it on the error path accumulates here)
+        prefix += [["create", 0, "Org", 0], ["create", 1, "Human", 1]]
+        for i in range(c.int(40, 110)):
+            if c.chance(0.8):
+                prefix.append(["create_failing", 500 + i, 0, None])
+            else:
+                prefix.append(["relate_interrupted", "field", 1, c.pick(["works_for", "member_of"]), 0, c.int(0, 4)])
+        prefix += [["drop", 0], ["drop", 1], ["gc"], ["sweep"]]
     elif shape == "random":
         classes = {}
         nxt = 0
